@@ -111,6 +111,49 @@ Section InternalOnce.
   Qed.
 End InternalOnce.
 
+
+(* ------------------------------------------------ the explicit pipe contract *)
+Lemma burst_accounts cap : forall ids q inl,
+  Permutation (fst (burst (pipe_write cap) q inl ids) ++ snd (burst (pipe_write cap) q inl ids)) (ids ++ q ++ inl) /\
+  ((length q <= cap)%nat -> (length (fst (burst (pipe_write cap) q inl ids)) <= cap)%nat).
+Proof.
+  induction ids as [|x r IH]; intros q inl.
+  - simpl. split; [apply Permutation_refl | auto].
+  - cbn [burst]. destruct (pipe_write cap q x) as [q'|] eqn:W; unfold pipe_write in W;
+      destruct (length q <? cap)%nat eqn:E; inversion W; subst; clear W.
+    + destruct (IH (x :: q) inl) as [P L]. split.
+      * eapply Permutation_trans; [exact P|]. simpl. apply Permutation_sym. apply Permutation_middle.
+      * intros _. apply L. simpl. apply Nat.ltb_lt in E. lia.
+    + destruct (IH q (x :: inl)) as [P L]. split.
+      * eapply Permutation_trans; [exact P|].
+        replace (r ++ q ++ x :: inl) with ((r ++ q) ++ x :: inl) by (rewrite <- app_assoc; reflexivity).
+        eapply Permutation_trans; [apply Permutation_sym; apply Permutation_middle|].
+        simpl. rewrite <- app_assoc. apply Permutation_refl.
+      * exact L.
+Qed.
+
+Section BurstOnce.
+  Variable popped : list N -> list N.
+  Hypothesis pipe_contract : forall w, Permutation (popped w) w.   (* each stored piece handed to exactly one reader *)
+  (* closures executed once the pipe has been drained = the inline ones + the popped ones *)
+  Definition burst_executed (cap : nat) (ids : list N) : list N :=
+    let r := burst (pipe_write cap) [] [] ids in snd r ++ popped (fst r).
+  Lemma burst_exactly_once cap ids : Permutation (burst_executed cap ids) ids.
+  Proof.
+    unfold burst_executed. destruct (burst_accounts cap ids [] []) as [P _].
+    rewrite !app_nil_r in P.
+    eapply Permutation_trans; [|exact P].
+    eapply Permutation_trans; [apply Permutation_app_comm|].
+    apply Permutation_app_tail. apply pipe_contract.
+  Qed.
+End BurstOnce.
+
+(* a pipe that overwrites unread entries when full loses closures even if every stored piece is popped once *)
+Lemma overwriting_pipe_loses :
+  let r := burst (pipe_write_overwriting 2) [] [] [1; 2; 3] in
+  count_occ N.eq_dec (snd r ++ fst r) 1 = 0%nat.
+Proof. vm_compute. reflexivity. Qed.
+
 (* ================================= C. memory events on the heap LocalTask *)
 Definition opt_list (p : option N) : list N := match p with Some q => [q] | None => [] end.
 
